@@ -6,7 +6,7 @@ LEVEL = 'fault_enumeration'
 RULE = ('for every operation variant of the C05 table, a dry run lists every I/O-relevant call (open r/w, read, write, flush, truncate, '
         'close, fsync/fcntl, rename/replace/link/unlink/remove/mkdir, os.open, listdir, SQL SELECT/INSERT/UPDATE/DELETE/VACUUM/commit); '
         'for EVERY such call k a child runs the operation with exactly that call raising (EIO/ENOSPC for writes, PermissionError for '
-        'rename-family, OperationalError for SQL) instead of being performed; the child records completed/raised and exits; the folder is '
+        'rename-family, OperationalError for SQL) instead of being performed; the child records completed/raised and exits; if it completed, a fresh handle must see exactly the fault-free result; the folder is '
         'read raw and through a fresh Container (C05 oracle), then stale *.lock files are removed and the operation is re-run by a new '
         'process: views == model, raw consistency, validate() (interrupted repacks excepted). Additionally (E5) a real errno (ENOSPC for write/pwrite64/'
         'ftruncate, EIO otherwise) is injected by strace into the n-th real syscall of an uninstrumented run, so CPython\'s and SQLite\'s own '
@@ -19,7 +19,7 @@ LEVEL_NOTE = 'trusted: the interposition layer (audit-hook guarded); injected er
 
 def run(ctx):
     for c in ('faults-injected', 'oracle-evaluations', 'reruns', 'outcome:raised', 'outcome:completed',
-              'interrupted-repacks-not-rerun', 'sys-faults', 'sys-reruns'):
+              'interrupted-repacks-not-rerun', 'sys-faults', 'sys-reruns', 'completed-outcomes-verified'):
         ctx.require(c)
     ctx.exhaustive = True
     ctx.map(crashchecks.run_fault_variant, crashchecks.variant_cases(ctx, PROPERTY, 'fault'))
